@@ -885,7 +885,8 @@ func (c *Ctx) SecurityDoc(kinds []string) *Doc {
 	for i := 0; i < nshared; i++ {
 		pi := &PathItem{}
 		nm := rapid.IntRange(2, 3).Draw(t, "nmethods")
-		ms := rapid.SliceOfNDistinct(rapid.SampledFrom([]string{"GET", "POST", "PUT", "DELETE"}), nm, nm, rapid.ID[string]).Draw(t, "methods")
+		// (every method is an operation like any other: OPTIONS, HEAD, PATCH, TRACE too)
+		ms := rapid.SliceOfNDistinct(rapid.SampledFrom([]string{"GET", "POST", "PUT", "DELETE", "OPTIONS", "HEAD", "PATCH", "TRACE"}), nm, nm, rapid.ID[string]).Draw(t, "methods")
 		for _, m := range ms {
 			pi.SetOp(m, mk(rapid.SampledFrom(reqs).Draw(t, "req")))
 		}
